@@ -75,7 +75,8 @@ func genPipeline(t *sim.Tape, c pipelineCfg) []*wl.Req {
 func runC03Volume(tape *sim.Tape, o *Outcome) *Outcome {
 	c := newConnRun(tape, o)
 	c.start()
-	const argLen = 8 << 20
+	// 8 MiB, or two bytes less (argument plus terminator is then a multiple of every power-of-two block size)
+	argLen := 8<<20 - 2*tape.Draw(2, "volume-arglen")
 	nreq := 131 + tape.Draw(6, "volume-requests") // 131 x 8 MiB > 2^30
 	req := resp.Cmd("VOLUME", string(bytes.Repeat([]byte{'v'}, argLen)))
 	piece := []int{len(req), 1 << 20, 65536}[tape.Draw(3, "volume-piece")]
